@@ -1866,16 +1866,17 @@ def flatten(array, axis=1, highlevel=True, behavior=None):
                     return layout
 
                 tags = nplike.asarray(layout.tags)
-                index = nplike.array(nplike.asarray(layout.index), copy=True)
+                index = nplike.array(nplike.asarray(layout.index), dtype=np.int64)
                 bigmask = nplike.empty(len(index), dtype=np.bool_)
                 for tag, content in enumerate(layout.contents):
                     if isinstance(content, ak._util.optiontypes) and not isinstance(
                         content, ak.layout.UnmaskedArray
                     ):
                         bigmask[:] = False
-                        bigmask[tags == tag] = nplike.asarray(content.bytemask()).view(
+                        mine = tags == tag
+                        bigmask[mine] = nplike.asarray(content.bytemask()).view(
                             np.bool_
-                        )
+                        )[index[mine]]
                         index[bigmask] = -1
 
                 good = index >= 0
